@@ -905,7 +905,9 @@ def c07_calculate(ctx, l, sig, av, me, ob):
         ob('calculate-north-component', z3.Implies(both, z3.And(z3.fpEQ(at.arg(1), fn_), z3.fpEQ(hy.arg(1), fn_))),
            'north component is not (raw-1) kt (x4 for subtype 2) with its direction sign, or is not the second atan2/hypot argument')
         h = z3.fpMul(z3.RNE(), at, K)
-        want_heading = z3.fpToFP(z3.RNE(), z3.If(z3.fpLT(h, z3.FPVal(0.0, F64)), z3.fpAdd(z3.RNE(), h, z3.FPVal(360.0, F64)), h), z3.Float32())
+        from mirsym.execu import fp_cmp
+        neg = to_z3bool(fp_cmp('Lt', h, z3.FPVal(0.0, F64)))
+        want_heading = z3.fpToFP(z3.RNE(), z3.If(neg, z3.fpAdd(z3.RNE(), h, z3.FPVal(360.0, F64)), h), z3.Float32())
         ob('calculate-heading', z3.Implies(both, to_fp(heading) == want_heading), 'track is not atan2(east, north) in degrees wrapped to [0, 360)')
         ob('calculate-speed', z3.Implies(both, to_fp(speed) == hy), 'ground speed is not the Euclidean norm (hypot) of the components')
 
